@@ -384,6 +384,27 @@ func (e *Endpoint) Write(b []byte) (int, error) {
 	if e.pipe.WS && n.Cfg.ParkWrites {
 		simrt.Park("netwrite", e.name)
 	}
+	// A write into a full send buffer is partial: the first part is accepted, the
+	// rest waits. If the wait ends in a write timeout, what went out stays out.
+	n.mu.Lock()
+	stalledNow := e.out.wstall != nil && !n.S.Free() && e.out.werr == nil && !e.closed
+	n.mu.Unlock()
+	if stalledNow && len(b) > 1 {
+		half := len(b) / 2
+		k, err := e.write(b[:half], true)
+		if err != nil {
+			return k, err
+		}
+		k2, err := e.write(b[half:], false)
+		return k + k2, err
+	}
+	return e.write(b, false)
+}
+
+// write appends b to the outgoing stream; ignoreStall lets the accepted first
+// part of a partial write through.
+func (e *Endpoint) write(b []byte, ignoreStall bool) (int, error) {
+	n := e.pipe.net
 	for {
 		n.mu.Lock()
 		if e.closed {
@@ -395,7 +416,7 @@ func (e *Endpoint) Write(b []byte) (int, error) {
 			n.mu.Unlock()
 			return 0, st.werr
 		}
-		if st.wstall != nil && !n.S.Free() {
+		if st.wstall != nil && !n.S.Free() && !ignoreStall {
 			c := st.wstall
 			n.Probes["write-blocked-in-stall"]++
 			n.mu.Unlock()
